@@ -43,6 +43,22 @@ var malformedTexts = []string{
 	" 1", "1 ", "\n\t1\r\n", "[ 1 , 2 ]", `{ "a" : 1 }`,
 }
 
+// textLayerTexts exercise the JSON text layer (reader): white space, nesting, every escape, surrogate pairs and
+// lone surrogates, well-formed / overlong / truncated / out-of-range UTF-8, number and literal edge cases,
+// repeated names, trailing text, syntax errors
+var textLayerTexts = []string{
+	"\t\r\n 1", " [ ] ", " { } ", "[[[]]]", `[[1,[2,[3,[]]]],{}]`, `{"a":{"b":[1,{"c":null}]}}`, `{"a" :1 , "b": 2}`, "{\n\"a\"\t:\r\n[\n1\n,\n2\n]\n}",
+	strings.Repeat("[", 60) + strings.Repeat("]", 60), strings.Repeat(`{"a":`, 40) + "1" + strings.Repeat("}", 40), strings.Repeat("[", 30) + strings.Repeat("]", 29),
+	`"\b\f\n\r\t\/\\\""`, `"\u00E9\u00e9\u00Aa"`, `"\ud83d\ude00"`, `"\uD83D\uDE00"`, `"\ude00\ud83d"`, `"\ud83d\u0041"`, `"\ud83dx"`, `"\ud83d\ud83d\ude00"`, `"\uDBFF\uDFFF"`, `"\ud800\udc00"`,
+	`"\udfff"`, `"\ud83d\n"`, `"\ud83d\ude0"`, `"\ud83d\uzzzz"`, `"\u0000"`, `"\u001f\u007f\u0080"`, `"\u2028\u2029"`, `"\uFFFD\ufffe\uffff"`, `"\u12"`, `"\u12g4"`, `"\x41"`, `"\'"`, `"\a"`, `"\`, `"abc\"`,
+	"\"\xc3\xa9\xe2\x82\xac\xf0\x9f\x98\x80\"", "\"\xc0\xaf\"", "\"\xe0\x80\xaf\"", "\"\xed\xa0\x80\"", "\"\xed\x9f\xbf\"", "\"\xf4\x8f\xbf\xbf\"", "\"\xf4\x90\x80\x80\"", "\"\xf5\x80\x80\x80\"",
+	"\"\xe2\x82\"", "\"\xf0\x9f\x98\"", "\"\xc3\"", "\"a\x80b\"", "\"\xe2\x80\xa8\xe2\x80\xa9\"", "\"\xef\xbf\xbd\"", "\"\xe0\xa0\x80\xf0\x90\x80\x80\xc2\x80\"", "\"\x7f\"", "\"\x1f\"", "\"\t\"",
+	"-0", "0.0e+0", "1E5", "1e-0", "-", "1e", "1e+", "1e+x", "00", "-01", "-00", "0.", "0.e1", ".1", "-.1", "1.2.3", "1e2e3", "0x", "1-", "--1", "+", "1_0", "12 34", "1\n2",
+	"tru", "truex", "true1", "nulll", "nul", "falsey", "fals", "True", "NULL", "t", "n",
+	"[1]x", "{}[", `"a""b"`, "[1][2]", `{}{}`, "{,}", `{"a":1,}`, `{"a"}`, `{"a":}`, "{1:2}", "{\"a\" 1}", "[1 2]", "[,1]", "[1,,2]", "[1;2]", `{"a":1;"b":2}`, `{"a":1 "b":2}`, "[", "{", `{"a"`, `{"a":`, `{"a":1`, `["a`, "]", "}", ",", ":",
+	`{"a":1,"a":2,"b":3,"a":4}`, `{"":1,"":2}`, `{"\u0061":1,"a":2}`, `[{"a":1,"a":2}]`, `{"a":{"b":1,"b":2}}`,
+}
+
 var mapKeys = []string{
 	``, `a`, `true`, `false`, `True`, `TRUE`, `1`, `0`, `-0`, `-1`, `+1`, `01`, `1.0`, `1e2`, `2147483647`, `2147483648`, `-2147483648`, `-2147483649`, `4294967295`, `4294967296`,
 	`9223372036854775807`, `9223372036854775808`, `-9223372036854775808`, `18446744073709551615`, `18446744073709551616`, `a\u0001b`, `é`, `😀`, `\ud800`, "\xff", ` 1`, `1 `, `é`, `\u0007`, `\u000b`, `\u007f`, `\u0080`, `\"`, `\\`, `1_0`, `0x1`, `NaN`,
@@ -198,6 +214,18 @@ func (Area) Gen(r *rand.Rand, tier string, emit func(string)) {
 			text("dec", "d", "map", kind, kk, "[]")
 			text("dec", "d", "map", kind, kk, "{}")
 		}
+	}
+
+	// 1b. the JSON text layer (the Lean reader is cross-checked against the real tokenizer on every case)
+	for _, t := range textLayerTexts {
+		for _, kc := range [][3]string{{"string", "sing", ""}, {"int32", "sing", ""}, {"double", "opt", ""}, {"string", "rep", ""}, {"bytes", "rep", ""},
+			{"string", "map", "string"}, {"int64", "map", "int32"}, {"enum", "oneof", ""}, {"bool", "map", "bool"}} {
+			text("dec", "d", kc[1], kc[0], kc[2], t)
+		}
+		text("dec", "s", "rep", "string", "", "["+t+"]")
+		text("dec", "s", "map", "string", "string", `{"k":`+t+`}`)
+		text("dec", "d", "map", "int32", "string", "{"+t+":1}")
+		text("sdec", "d", "sing", "string", "", t+"\n"+t+" "+t)
 	}
 
 	// 2. message-typed fields (delegation to protojson)
@@ -658,7 +686,13 @@ func boundaryValues(kind string) []string {
 		return []string{f64(0), f64(math.Copysign(0, -1)), f64(1), f64(-1.5), f64(0.1), f64(3.14159), f64(math.MaxFloat64), f64(-math.MaxFloat64), f64(math.SmallestNonzeroFloat64),
 			f64(1e21), f64(1e-7), f64(9007199254740993), f64(1e20), f64(0.30000000000000004), "nan", "pinf", "ninf"}
 	case "string":
-		return []string{"s", "s" + hx("a"), "s" + hx("true"), "s" + hx("1"), "s" + hx("a\x01b"), "s" + hx("é"), "s" + hx("😀"), "s" + hx("<>&\"\\/"), "s" + hx("  "), "s" + hx("\x00"), "s" + hx("\x7f\u0080"), "s" + hx("a b"), "s" + hx("\xff"), "s" + hx("日本語")}
+		var ascii []byte
+		for i := 0; i < 128; i++ {
+			ascii = append(ascii, byte(i))
+		}
+		return []string{"s" + hex.EncodeToString(ascii), "s" + hx("\u2028\u2029\ufffd\U0001F600\u00e9\u0080\u07ff\u0800\uffff\U00010000\U0010ffff"),
+			"s" + hx("\xc0\xaf\xe0\x80\xaf\xed\xa0\x80\xf4\x90\x80\x80\xe2\x82\xf0\x9f\x98"), "s" + hx("<script>&amp;</script>"),
+			"s", "s" + hx("a"), "s" + hx("true"), "s" + hx("1"), "s" + hx("a\x01b"), "s" + hx("é"), "s" + hx("😀"), "s" + hx("<>&\"\\/"), "s" + hx("  "), "s" + hx("\x00"), "s" + hx("\x7f\u0080"), "s" + hx("a b"), "s" + hx("\xff"), "s" + hx("日本語")}
 	case "bytes":
 		return []string{"y", "y00", "y61", "y6162", "y616263", "y61626364", "yff", "yfbffbf", "y0001020304050607", "yfffefdfc"}
 	case "enum":
